@@ -35,6 +35,7 @@ class ObjMethod(Func):
         self.objmethods = objmethods    # (type, name) -> (coq function, [arg types], result type, kind)
         self.templates = templates      # function name -> (coq function, [arg types], result type)
         self.field_none = set()
+        self.uses_outcome = False       # the method calls the user's callback: its outcome is the parameter `raises`
         self.selfmethods = {}           # (method name, number of arguments) -> coq function on the state
         self.skip_fields = {}           # field -> source text of the only value it may be assigned (no model state)
 
@@ -171,6 +172,33 @@ class ObjMethod(Func):
             if t != "none":
                 fail(s, "result of a call is dropped")
             return self.wrap(pre, self.block(rest))
+        # try: [await] self.__handle(*self.__args, **self.__kwargs)  except Exception: <handler>
+        # the callback is external code: whether it raises (an Exception subclass) is the parameter `raises`
+        if isinstance(s, ast.Try) and not s.orelse and not s.finalbody and len(s.handlers) == 1 \
+                and isinstance(s.handlers[0].type, ast.Name) and s.handlers[0].type.id == "Exception" \
+                and s.handlers[0].name is None and len(s.body) == 1 and isinstance(s.body[0], ast.Expr):
+            call = s.body[0].value
+            if isinstance(call, ast.Await):
+                call = call.value
+            ok = (isinstance(call, ast.Call) and self.fkey(call.func) == "__handle" and len(call.args) == 1
+                  and isinstance(call.args[0], ast.Starred) and self.fkey(call.args[0].value) == "__args"
+                  and len(call.keywords) == 1 and call.keywords[0].arg is None
+                  and self.fkey(call.keywords[0].value) == "__kwargs")
+            if not ok:
+                fail(s, "try body must be the call of the job's callback with its stored arguments")
+            self.uses_outcome = True
+            failing = self.block(list(s.handlers[0].body) + rest)
+            return "(if raises then %s else %s)" % (failing, self.block(rest))
+        # logger.exception("Unhandled exception in `%r`!", self): one error record, no model state
+        if isinstance(s, ast.Expr) and ast.unparse(s.value) == "logger.exception('Unhandled exception in `%r`!', self)":
+            return self.block(rest)
+        # self.__f += <int>
+        if isinstance(s, ast.AugAssign) and isinstance(s.op, ast.Add) and self.fkey(s.target) in self.fields:
+            proj, fty, setter = self.fields[self.fkey(s.target)]
+            pre, c, t = self.expr(s.value)
+            if fty != "int" or t != "int" or setter is None:
+                fail(s, "+= typing")
+            return self.wrap(pre, "(let self := %s self ((%s self) + %s) in %s)" % (setter, proj, c, self.block(rest)))
         # self.__lock = threading.RLock(): no model state
         if isinstance(s, ast.Assign) and len(s.targets) == 1 and self.fkey(s.targets[0]) in self.skip_fields:
             if ast.unparse(s.value) != self.skip_fields[self.fkey(s.targets[0])]:
@@ -287,6 +315,8 @@ class ObjMethod(Func):
         args = " ".join("(%s : %s)" % (a, COQTY[t]) for a, t in self.params if a not in self.folded)
         if self.uses_clock:
             args = "(now_us : Z) " + args
+        if self.uses_outcome:
+            args = "(raises : bool) " + args
         ret = self.state_type if self.ret == "none" else COQTY[self.ret]
         return "Definition %s (self : %s) %s : res (%s) :=\n  %s.\n" % (name, self.state_type, args, ret, body)
 
